@@ -30,6 +30,153 @@ claim("C07",
       "Floating-point rounding of coordinates (compared to 1e-9); math.sqrt modelled by Nat.sqrt (agreement checked on "
       "all small n and ring boundaries); label string formatting exercised on the implementation only.")
 
+
+claim("C02",
+      "Lean proofs over exact rationals for one generic composite level, instantiated for block, assembly and core: the "
+      "homogenised number density is the volume-weighted mean, so atoms are additive at every level with any symmetry factor; "
+      "mass = density x volume; every composition setter (setNumberDensity, updateNumberDensities, changeNDensByFactor, "
+      "addMass/removeMass/setMass, setMassFracs) reads back at its own level and leaves other nuclides alone; mass fractions "
+      "sum to one and the densityTools conversions are mutual inverses. Tied to the code on every run by mirroring the "
+      "third-core reference reactor (symmetry factors 1, 2, 3) and generated assemblies as exact rationals, applying seeded "
+      "edit sequences (zeros, trace values, voiding and refilling) to both sides and comparing every quantity after every edit.",
+      "floating-point rounding (1e-9 relative); component volumes, atomic weights and symmetry factors are model inputs; "
+      "element/list nuclide specifiers and LFP expansion are oracle-only; composition-dependent expansion not modelled; three "
+      "hypotheses exclude listed findings (assembly volume = sum of block volumes, component mass read-back in a cut block, "
+      "Component.density() of an all-zero composition).")
+claim("C03",
+      "Lean proofs for every expansion curve with 1 + dL/L > 0, every two-dimensional shape class and every temperature "
+      "history: telescoping expansion factor, path independence, area proportional to factor^2 for exactly each shape's "
+      "expanding dimensions, conservation of mass per unit height, dimension = cold x factor, hot-set read-back (also through "
+      "retained links), link following, fixed dimensions for fluids. The per-class THERMAL_EXPANSION_DIMS table is regenerated "
+      "from /repo on every run and kernel-checked against the sets the homogeneity lemmas were proved for. Tied to the code on "
+      "the full cross product shape classes x all library material classes x seeded histories inside each validity range "
+      "(exact bounds, 0.0 C), plus linked-dimension configurations, feeding each material's measured curve as the parameter.",
+      "the correlations themselves are parameters; floating-point rounding (1e-9); math.sqrt in Helix is a parameter with a "
+      "scaling lemma; composition-dependent expansion and the Tc argument of getDimension not modelled; DerivedShape area not modelled.",
+      "Lean 4 theorems + regenerated shape table obligations + correspondence check against /repo")
+claim("C06",
+      "Store model (write, load, listing, history, merge, split, close, error path) with the database interface folded over "
+      "C15's run. Proved for every configuration: snapshot isolation, overwrite refusal, exact chronological listing and the "
+      "name order for cycle/node < 100, history by serial number, merge and split content, the crash file for every event index "
+      "between opening and finalisation (completed writes + error snapshot, not successful), and the complete-run content. Tied "
+      "to real Database objects on real HDF5 files (random histories incl. object moves between writes) and to real Operator "
+      "runs with a fault-injecting interface at every stack position and every hook call.",
+      "HDF5/h5py storage and durability, safeMove atomicity, failures inside the writer, process kills; layout and parameter "
+      "packing are C04/C05's; a snapshot is (cycle, node, one value per followed object); order of the returned history dict and "
+      "which interface opens the database are correspondence-only.")
+claim("C08",
+      "Index rotation (all k in Z) is proved to be the exact 60-degree counter-clockwise rotation of the cell centre (integer "
+      "identity and over any field containing sqrt 3), additive, of period six, ring-preserving; third-core equivalents are the "
+      "120/240-degree images; the first third is the 0-120 degree sector with exact 1/2 orbit counts off/on the edge lines; line "
+      "classes are equivalent to the rays; Cartesian quarter-core equivalents are the orbit minus the cell with one member in the "
+      "domain; getIndexOfRotatedCell, pivot and the HexBlock.rotate composition laws are proved on the model. Exhaustive tie over "
+      "cells (both orientations, k in -14..14) and real HexBlocks/HexAssemblies rotated by every k.",
+      "rounding from rad to rotNum is a parameter; cos/sin exact in Q(sqrt 3) and compared to 1e-9; SymmetryType string decoding "
+      "and deepcopy of blocks exercised, not modelled.")
+claim("C09",
+      "Kernel-checked theorems over an executable model of cccc.py: every well-formed bidirectional record/file program reads back "
+      "exactly what it wrote; every binary record of any int/long/real/double/string/list/matrix field sequence is framed by counts "
+      "equal to its payload length; re-writing what was read reproduces the bytes; _rwMatrix is a column-major bijection; block "
+      "bandwidths tile the column range; the ISOTXS banded reversed storage round-trips any row. On every run recording record "
+      "classes substituted through Stream._fileModes show, for 19 format entries x {binary, ASCII} on generated containers and all "
+      "shipped fixtures, that the real files equal the model's bytes byte for byte, the reader replays the writer's call trace, data "
+      "are equal after read and re-writing is identical.",
+      "float<->bit-pattern conversion and ASCII real parsing; which records each format's readWrite emits is covered by trace "
+      "equality, not a per-format model; whole-file rewrite at theorem level; generator domain limits (NSBLOK = 1, Legendre "
+      "orders <= 1, ...) run as excluded points and reported as findings.")
+claim("C10",
+      "Kernel-checked theorems over a statement-by-statement transcription of the merge call chain (partial mutation included): for "
+      "any number of libraries and any permutation, acceptance and merged content are order-independent; the result holds exactly "
+      "the union of labels with each nuclide field from its source; incompatible inputs are rejected; macroscopic constants equal "
+      "sum N.sigma.nu group by group, are linear and additive, derived quantities equal their defining sums. Tied to the real "
+      "classes on fixture libraries and generated library sets in every merge order and generated compositions.",
+      "payload equality (numpyHackForEqual) is an interned parameter; chi/higher-order scatter oracle-only; 'rejected => target "
+      "unchanged' is refuted in general (three witnesses, listed findings); 'zero for an empty composition' holds for the defining "
+      "sum, not the code (finding); floating-point rounding.")
+claim("C11",
+      "Lean theorems over an exact rational model of getBlocksBetweenElevations, setNumberDensitiesFromOverlaps, "
+      "setAssemblyStateFromOverlaps, _filterMesh, resampleStepwise, average1DWithinTolerance and getBlockAtElevation: for all "
+      "contiguous mesh pairs over the same height and all profiles, atom conservation, integrated-total conservation, "
+      "height-weighted means, constants, peaks (values >= 0), round-trip totals, the partition of every window, and the full "
+      "_filterMesh specification. Tied on every run by same-input correspondence on real fixture assemblies and generated inputs "
+      "(nearly coincident meshes, repeated re-meshing) plus an independent oracle.",
+      "floating-point rounding; slivers below 1e-10 and points 1e-7..3e-11 apart are oracle-only; XS-type selection and "
+      "createHomogenizedCopy; np.digitize / sorted(set()) modelled by definition and checked by correspondence.")
+claim("C12",
+      "Lean theorems over an executable model of axiallyExpandAssembly with linkage, targets and growth factors as inputs: for any "
+      "block count and any sequence of expansions, height preservation, contiguity, boundary-follows-target, linked stacking, "
+      "positivity conditions, uniform-growth mass conservation and inverse restoration; target-mass conservation under the explicit "
+      "lower-link hypothesis with its negation proved at a witness (listed finding). The real AssemblyAxialLinkage, targets and "
+      "factors of the fixture assemblies are read on every case and fed to the model; an independent oracle checks every clause on "
+      "the real objects (tiny steps, paths through 0 C, closed cycles).",
+      "areAxiallyLinked geometry, target selection, material correlations and temperature averaging are inputs; radial part is "
+      "C03's; rounding; only the detailedAxialExpansion fixture assembly types are driven.")
+claim("C13",
+      "Kernel-checked theorems over a transcription of ThirdCoreHexToFullCoreChanger and EdgeAssemblyChanger: for every third-core "
+      "hex core the converted core consists exactly of the 120-degree orbits with no collision; count, mass, volume and every "
+      "volume-integrated total are x3 with the centre counted once; copies are freshly named, payload-equal and rotated into place; "
+      "restore after convert and removeEdge after addEdge are the identity; every state reachable by any sequence of the four "
+      "operations is a third-core state with the original content or the conversion of one. Tied to the real reference reactor and "
+      "cut-down variants by per-operation state comparison plus an implementation-side oracle.",
+      "deepcopy independence (oracle); float rounding of mass/volume (1e-9); block-internal rotation is C08's; the "
+      "SINCE_LAST_GEOMETRY_TRANSFORMATION flag is one boolean; listed findings excluded by explicit hypotheses.")
+claim("C14",
+      "Kernel-checked invariant over a transcription of swap, cascade, dischargeSwap, Core.add, Core.removeAssembly and "
+      "Assembly.moveTo: nothing duplicated, one assembly per cell, location table a bijection, present assemblies found by name, "
+      "nothing purged found; preserved by every operation under the preconditions the code checks, hence in every reachable state; "
+      "multiset inventory conservation per step and per history; contents unchanged and stationary blocks staying in place. Tied to "
+      "the real reference core and SFP by whole-state comparison after every operation of random histories under all tracking x "
+      "stationary-flag settings, plus an oracle that checks by name.",
+      "names identified with objects (renumbering is oracle-only); block-level lookup theorem partial; SFP cell coordinates, "
+      "numMoves/lastLocationLabel and symmetry rescaling of parameters on moves not modelled; listed findings are excluded points.")
+claim("C15",
+      "The schedule `run` transcribes _mainOperate/_cycleLoop/_timeNodeLoop/_performTightCoupling/getActiveInterfaces/_interactAll "
+      "and is proved equal, for every configuration, to an independently written declarative schedule; theorems cover node order "
+      "and gaps, halting, coupling iteration counts, the active-interface rule, stack and end-of-life order, argument/state "
+      "agreement, node and step arithmetic inverses, cumulative numbering = visit order, and step-length sums. The tie runs real "
+      "Operators with recording interfaces and compares event logs exactly; node arithmetic is exhaustive for burn-step vectors of "
+      "length <= 4 with entries <= 4.",
+      "interface construction and ordering (createInterfaces, STACK_ORDER); float rounding of step lengths; r.p.stepLength and "
+      "power inside hooks; MPI workers.")
+claim("C17",
+      "Kernel-checked theorems about the settings model: for all three write styles write-then-read is the identity on every "
+      "setting except the version stamp; the key set of each style is characterised exactly; a value the schema refuses is "
+      "rejected and leaves the previous value, on assignment and on read; unexpired old names land on the new setting, expired ones "
+      "are invalid, colliding renames refused; a modified copy and its original are unaffected by any assignment history on the "
+      "other. Tied to the code over the whole registry (154 settings x schema-generated valid, falsy and near-miss values x three "
+      "styles through the real YAML writer and reader), generated rename registries and modified() histories.",
+      "ruamel YAML formatting and voluptuous coercion enter as the per-setting hypothesis schema(dump v) = v (tested for every "
+      "setting and value, not proved); log-verbosity initialisation (two listed findings); the versions stamp; container kind.")
+claim("C18",
+      "Kernel-checked: for every map size the text-cell to index maps of all four ascii map classes are bijections with closed-form "
+      "line numbers; every reader keeps every token at its computed index; the Cartesian reader is characterised exactly and the "
+      "Cartesian writer is sound on non-negative indices; a drawing reads back with every label at its own index unless the outline "
+      "inferred from the data misses a cell or the reader re-infers other dimensions (exactly the classes of the listed findings); "
+      "block elevations are cumulative and contiguous; linked dimensions resolve over any well-founded link graph; placement gives "
+      "exactly the named locations. Tied by exhaustive-small and generated correspondence with armi.utils.asciimaps in both "
+      "directions, GridBlueprint save/reload, and generated blueprint YAML built by the real reactors.factory compared field by "
+      "field with an independent reading of the document.",
+      "the hex write direction (dimension inference, corner truncation) is correspondence-only; component construction, materials, "
+      "thermal expansion and composition after material modifications are compared with an independent Python evaluation; custom "
+      "isotopics and theta-RZ grids not generated.")
+claim("C19",
+      "Structured nuclide identifiers (name, label, MCNP, AAAZZZS) are proved injective and decodable in Lean for all (z, a, "
+      "state); for the table REGENERATED from /repo's nuclides.dat, burn-chain.yaml and mcc-nuclides.yaml on every run the kernel "
+      "re-checks (decide +kernel, linear passes) that all 4624 nuclides have pairwise distinct ids, belong to their element, "
+      "abundances sum to one, burn-chain products exist with branches in [0,1] and MC2 ids are unique per library. Every loaded "
+      "nuclide is compared exhaustively with the model and every lookup checked for object identity.",
+      "decimal/character rendering of ids; lumped/dummy burn-chain products defined in code; the material-library half is an "
+      "exhaustive enumeration of classes at sampled temperatures (incl. exact range ends), not a theorem.",
+      "Lean 4 theorems + kernel-checked obligations over a table regenerated from /repo + exhaustive correspondence")
+claim("C20",
+      "Lean theorems over exact rationals: grouping partitions blocks by micro suffix; every admissible label converts to its number "
+      "and back without collision; averaged values are weight-normalised means of eligible members (convex, equal-members, "
+      "duplication and scale invariant); burnup is HM-weighted over eligible members; the median block is an eligible member of rank "
+      "floor(n/2). Tied exhaustively for labels (52 + 52^2) and on generated block sets of the reference reactor for every "
+      "collection variant and group structure, with an independent oracle and before/after core dumps.",
+      "floating-point rounding of numpy sums; deep copy and LFP handling; 1-D slab/cylinder collections; getVolume, getMass, "
+      "getVolumeFractions are inputs.")
+
 NOT_YET = {}
 
 ALL = [f"C{n:02d}" for n in range(1, 21)]
